@@ -28,7 +28,36 @@ func applySplits(repo *headers.Repository, mode string) {
 		req := &headers.Split{Name: "REQ", BeforeHash: Get(SynthReqBefore).Hash,
 			AfterHash: Get(SynthReqAfter).Hash, Height: 3}
 		repo.VerifSetSplits(splits, req)
+	case "synth20":
+		// the same table 18 heights up: foreign split at 20, required and foreign split at 21
+		b19, b20 := AChain(19), AChain(20)
+		splits := headers.Splits{
+			{Name: "F20", BeforeHash: Get(b19).Hash, AfterHash: Get(b19 + "/b").Hash, Height: 20},
+			{Name: "F21", BeforeHash: Get(b20).Hash, AfterHash: Get(b20 + "/b").Hash, Height: 21},
+		}
+		req := &headers.Split{Name: "REQ", BeforeHash: Get(b20).Hash, AfterHash: Get(b20 + "/a").Hash, Height: 21}
+		repo.VerifSetSplits(splits, req)
 	default:
 		panic("unknown split mode " + mode)
 	}
+}
+
+// AChain returns the label of the n-th header of the straight chain G/a/a/...
+func AChain(n int) string {
+	l := "G"
+	for i := 0; i < n; i++ {
+		l += "/a"
+	}
+	return l
+}
+
+// SplitBeforeLabels returns the labels of the fork points of the synthetic split table.
+func SplitBeforeLabels(mode string) []string {
+	switch mode {
+	case "synth":
+		return []string{SynthReqBefore, SynthF2Before}
+	case "synth20":
+		return []string{AChain(19), AChain(20)}
+	}
+	return nil
 }
